@@ -108,4 +108,60 @@ theorem Lit.isDroplets_of_normal (l : Lit) (hnn : l.nonneg = true) (h6 : -6 ≤ 
     have : Δ = (l.cexp + 6).toNat + (-(l.scale + 6)).toNat := by omega
     rw [this, Nat.pow_add, Nat.mul_assoc]
 
+theorem isDroplets_unique (l : Lit) (v v' : Nat) (h : l.IsDroplets v) (h' : l.IsDroplets v') : v = v' := by
+  unfold Lit.IsDroplets at h h'
+  by_cases hs : 0 ≤ l.scale + 6
+  · rw [if_pos hs] at h h'; rw [h, h']
+  · rw [if_neg hs] at h h'
+    rw [← h'] at h
+    exact Nat.eq_of_mul_eq_mul_right (Nat.pow_pos (by decide)) h
+
+/-! ### the last significant digit -/
+
+theorem valOf_concat_mod (x : Bytes) (b : Nat) (hb : isDigit b = true) : valOf (x ++ [b]) % 10 = b - 48 := by
+  rw [valOf_append]
+  have : valOf [b] = b - 48 := by simp [valOf, ofDigits10]
+  rw [this]
+  simp [isDigit] at hb
+  simp only [List.length_singleton, Nat.pow_one]
+  omega
+
+/-- when a significant fraction digit exists, the normal-form coefficient does not end in 0 -/
+theorem Lit.tdigits_mod10 (l : Lit) (h : l.WF) (hne : trimRight0 l.fpDigits ≠ []) :
+    valOf l.tdigits % 10 ≠ 0 := by
+  obtain ⟨init, last, hl⟩ : ∃ init last, trimRight0 l.fpDigits = init ++ [last] := by
+    rcases List.eq_nil_or_concat (trimRight0 l.fpDigits) with h0 | ⟨i, b, hb⟩
+    · exact absurd h0 hne
+    · exact ⟨i, b, by simpa using hb⟩
+  have hlast : last ≠ 48 := trimRight0_getLast l.fpDigits last (by rw [hl]; simp)
+  have hd : isDigit last = true := by
+    have := trimRight0_all (p := isDigit) l.fpDigits h.fp
+    rw [hl, List.all_append] at this
+    simp only [Bool.and_eq_true, List.all_cons, List.all_nil, Bool.and_true] at this
+    exact this.2
+  unfold Lit.tdigits
+  rw [hl, ← List.append_assoc, valOf_concat_mod _ _ hd]
+  simp [isDigit] at hd; omega
+
+/-- an amount with an exact droplet value whose normal-form coefficient does not end in 0 has a
+normal-form exponent ≥ −6 -/
+theorem Lit.cexp_ge_of_droplets (l : Lit) (v : Nat) (hv : l.IsDroplets v)
+    (hm : valOf l.tdigits % 10 ≠ 0) : -6 ≤ l.cexp := by
+  apply Decidable.byContradiction
+  intro hlt
+  let Δ := l.fpDigits.length - (trimRight0 l.fpDigits).length
+  have hce : l.cexp = l.scale + (Δ : Int) := l.cexp_eq
+  have hnum : l.num = valOf l.tdigits * 10 ^ Δ := l.num_eq
+  have hs : ¬ 0 ≤ l.scale + 6 := by omega
+  unfold Lit.IsDroplets at hv
+  rw [if_neg hs, hnum] at hv
+  obtain ⟨j, hj⟩ : ∃ j, (-(l.scale + 6)).toNat = Δ + (j + 1) := ⟨(-(l.scale + 6)).toNat - Δ - 1, by omega⟩
+  rw [hj, Nat.pow_add, ← Nat.mul_assoc, Nat.mul_comm _ (10 ^ Δ), Nat.mul_comm _ (10 ^ Δ)] at hv
+  rw [Nat.mul_assoc] at hv
+  have := Nat.eq_of_mul_eq_mul_left (Nat.pow_pos (by decide : 0 < 10)) hv
+  rw [Nat.pow_succ] at this
+  apply hm
+  rw [← this, ← Nat.mul_assoc]
+  exact Nat.mul_mod_left _ _
+
 end Sky.C30
